@@ -693,6 +693,14 @@ func (c *Ctx) c15Protocol() {
 		}
 		// marks use the constant true
 		for _, ev := range p.Events {
+			if ev.Kind == pw.EvMapInsert && isDeletedSet(ev.Recv) && ev.Frame != nil && ev.Frame.Deferred {
+				// the set is shared by all labels of the call: a key marked while it is put back under one label is not put back
+				// under its other labels
+				r.Bad("R15.3", name, "mark-in-put-back", c.Pos(ev.Pos), "the put-back marks a key as deleted although it was not deleted: under its other labels the key is no longer indexed while it stays cached", shortTrace(p))
+				break
+			}
+		}
+		for _, ev := range p.Events {
 			if ev.Kind == pw.EvMapInsert && isDeletedSet(ev.Recv) {
 				if bt, isBool := ev.Value.Type.Underlying().(*types.Basic); !isBool || bt.Kind() != types.Bool && bt.Kind() != types.UntypedBool {
 					continue
